@@ -325,6 +325,9 @@ func genC02EnvShapes(w *caseWriter, st *pkgStats) int {
 		n++
 		doc := "name: envpkg\narch: amd64\nversion: ${VERIF_V}\nprerelease: ${VERIF_P}\nplatform: ${VERIF_PLAT}\ndescription: ${VERIF_D}\nmaintainer: M <m@example.com>\nmtime: 2023-11-14T22:13:20Z\nrpm:\n  buildhost: builder.example.org\ncontents:\n  - src: src/f1\n    dst: /usr/bin/envpkg\n"
 		runPkgCase(w, fmt.Sprintf("h-values-through-the-environment-%d", n), pkgDesc{YAML: doc, Formats: rotate(allFormats, n), Env: e}, st, nil)
+		// the version written out with its prerelease and metadata, the explicit prerelease a variable that is empty
+		doc2 := strings.Replace(doc, "version: ${VERIF_V}", "version: 2.0.0-beta1+git5", 1)
+		runPkgCase(w, fmt.Sprintf("h-literal-version-and-an-empty-prerelease-variable-%d", n), pkgDesc{YAML: doc2, Formats: rotate(allFormats, n+1), Env: map[string]string{"VERIF_P": "", "VERIF_PLAT": e["VERIF_PLAT"], "VERIF_D": e["VERIF_D"]}}, st, nil)
 	}
 	return n
 }
